@@ -24,7 +24,7 @@ from pypika_tortoise.terms import Parameterizer
 from pypika_tortoise.dialects import PostgreSQLQuery, MySQLQuery, SQLLiteQuery, MSSQLQuery, OracleQuery
 
 LEVEL = "proof"
-THEOREMS = ["C08_modifiers_preserve_conventions", "C08_generic_inner_follows_outer", "C08_neutral_is_a_function_of_the_quote", "C08_cross_nonvacuous"]
+THEOREMS = ["C08_modifiers_preserve_conventions", "C08_builder_class_irrelevant", "C08_class_free_nonvacuous", "C08_generic_inner_follows_outer", "C08_neutral_is_a_function_of_the_quote", "C08_cross_nonvacuous"]
 HEADER = ("From PT Require Import Base.Str Base.Codes Model.Types Ref.Lexer Ref.Dialect.\nOpen Scope N_scope.\n"
           "Definition j (d1 : dial) (s1 : str) (d2 : dial) (s2 : str) : N := match cross_ok d1 s1 d2 s2 with Some true => 1 | Some false => 0 | None => 2 end.\n")
 FAIL, SEEN = [], [0]
